@@ -415,6 +415,10 @@ def _ops_in(case, *names):
     return any(OPS[i][0] in names for i in case["hist"])
 
 
+def describe(case):
+    return {"variant": case["variant"], "history": [list(OPS[i]) for i in case["hist"]]}
+
+
 PREDICATES = {}
 
 
